@@ -166,6 +166,9 @@ pub fn install_panic_hook() {
         } else {
             "<non-string panic payload>".to_string()
         };
+        if std::env::var_os("VERIF_DEBUG_PANIC").is_some() {
+            eprintln!("PANIC at {file}:{line}: {message}");
+        }
         LAST_PANIC.with(|p| *p.borrow_mut() = Some(PanicInfo { file, line, message }));
     }));
 }
